@@ -7,3 +7,4 @@ CONSTANTS
   Auths <- AllAuths
   Frags <- AllFrags
 CONSTRAINT EmitIdent
+INVARIANT IdentLaw
